@@ -10,7 +10,11 @@ of the skeleton (any path through ifs, any number of loop iterations) ever
  - locks a mutex while any mutex is held (no nesting, no self-deadlock),
  - touches a guarded field without its mutex,
  - calls a function that takes locks while holding one, or a function that
-   assumes a lock without holding it,
+   assumes a lock without holding it (the extractor also renders every call that
+   waits for a peer - a read or write on a network connection, on an HTTP
+   response writer or request body, an outgoing HTTP request, a dial, a sleep -
+   as `callLocking`: such a call, too, has to be made with no mutex held, or a
+   silent peer stops everybody who needs that mutex),
  - returns (or falls off the end) with a mutex still held after its deferred unlocks ran.
 The checker is then evaluated by the kernel (`decide`) on the skeletons
 regenerated from the source on every run (Gca/Tie/Locks.lean).
@@ -24,7 +28,7 @@ inductive Stmt where
   | ret
   | exit                                   -- panic / logger.Fatal / os.Exit: the path ends, nothing to release
   | access (mutex : String)                -- access to a field guarded by `mutex`
-  | callLocking                            -- call of a function that acquires locks itself
+  | callLocking                            -- call of a function that acquires locks itself, or that waits for a peer
   | callAssuming (mutex : String)          -- call of a function that requires `mutex` to be held
   | ite (a b : List Stmt)
   | loop (body : List Stmt)
